@@ -24,6 +24,9 @@ run_case() {
   rm -rf "$work"
   viol=$(echo "$out" | grep '^VIOLATION' )
   case "$exp" in
+    missed)
+      if [ -n "$viol" ]; then echo "SELFTEST $name: NOW CAUGHT (update meta.json expect): $(echo "$viol" | head -1 | sed 's/.*obligation=//')"; else echo "SELFTEST $name: known miss (recorded in meta.json; no check claims to catch it yet)"; fi
+      return 0 ;;
     pass)
       if [ -z "$viol" ] && [ $code -ne 2 ]; then echo "SELFTEST $name: ok (no violation, exit $code)"; return 0; fi
       echo "SELFTEST $name: UNEXPECTED ALARM (exit $code)"; echo "$out" | tail -5; return 1 ;;
